@@ -75,9 +75,16 @@ func runC15(cfg Config, r *Result) {
 		return
 	}
 	defer model.Close()
-	r.Rule = "random typed programs with a random subset of the six event handlers (each declaring a prefix of the payload parameters, some as `_`), followed by a random sequence of events with payloads; implementation vs model after Eval and after every HandleEvent (outcome, effects, yields, globals dump); property oracle on the implementation: handlers rewritten as procedures + one call per event give the same effect trace; non-trivial = at least one delivered event reaches a handler; distinct = distinct (program, event list)"
+	r.Rule = "random typed programs with a random subset of the six event handlers (each declaring a prefix of the payload parameters, some as `_`), followed by a random sequence of events with payloads; implementation vs model after Eval and after every HandleEvent (outcome, effects, yields, globals dump); property oracle on the implementation: handlers rewritten as procedures + one call per event give the same effect trace; stream errglobals: handlers and top-level code that index / slice / range over the built-in globals errmsg / err in place while str2num / str2bool fail and succeed from event to event (model comparison per event + procedures oracle); non-trivial = at least one delivered event reaches a handler; distinct = distinct (program, event list)"
+	if in, ok := replayInput(cfg); ok {
+		if src, ok := in["program"].(string); ok {
+			semCase(model, r, src, SemOpts{StopAt: -1, Events: c14Events(in), YieldBudget: 50000}, true, "replay:")
+		}
+		return
+	}
 	c15Signatures(cfg, r, model)
 	c15HiddenNames(cfg, r, model)
+	c15ErrGlobals(cfg, r, model)
 	n := cfg.N(400, 10000)
 	maxEv := cfg.N(10, 40)
 	for i := 0; i < n; i++ {
@@ -249,6 +256,140 @@ func c15HiddenNames(cfg Config, r *Result, model *Model) {
 			r.Violate(Violation{Kind: "property", Key: "parameterless-handler-differs-from-procedure",
 				Detail: "handlers declared without parameters do not read and update the same globals as the equivalent procedures (a payload name of the built-in signature is visible in the handler?)",
 				Input:  map[string]any{"program": src, "events": evs, "procedures": psrc}, Impl: map[string]any{"events": a, "procedures": b}})
+		}
+	}
+}
+
+// c15ErrGlobals: handlers (and top-level code) that look INTO the built-in globals err / errmsg directly - index, slice,
+// for-range, len, comparison, not through a copy - while conversion built-ins (str2num, str2bool) fail and succeed from
+// event to event: every handler run must see the cell as the conversion of THIS run left it (same global as all earlier
+// code, no state of an earlier run). Implementation vs model per event, plus the equivalent-procedures oracle.
+func c15ErrGlobals(cfg Config, r *Result, model *Model) {
+	rng := cfg.Rng
+	good := []string{"7", "1", "-3", "+42", "123456", "0", "true", "false", "T", "f"}
+	// (ASCII only: the model defers the text of a message that quotes a non-ASCII string to an oracle)
+	bad := []string{"abc", "xyz", "", "q", "hello world", "zz top", "x", "a b c d e f g", "no", "tru", "seven", "#", "yes!"}
+	pick := func() string {
+		if rng.Intn(2) == 0 {
+			return good[rng.Intn(len(good))]
+		}
+		return bad[rng.Intn(len(bad))]
+	}
+	for v, n := 0, cfg.N(300, 6000); v < n; v++ {
+		var b strings.Builder
+		nid := 0
+		// looks writes 1-3 statements that read errmsg / err in place
+		looks := func(ind string) {
+			for j, m := 0, 1+rng.Intn(3); j < m; j++ {
+				idx := []string{"0", "-1", "1", "-2", "8", "22", "23", fmt.Sprint(rng.Intn(34))}[rng.Intn(8)]
+				switch rng.Intn(8) {
+				case 0:
+					fmt.Fprintf(&b, "%sprint (len errmsg) err\n", ind)
+				case 1:
+					fmt.Fprintf(&b, "%sif err\n%s    print errmsg[%s] errmsg[:8] errmsg[-2:] errmsg[23:-1]\n%send\n", ind, ind, idx, ind)
+				case 2:
+					fmt.Fprintf(&b, "%sfor c := range errmsg\n%s    seen = seen + c\n%send\n%sprint \"seen\" seen\n%sseen = \"\"\n", ind, ind, ind, ind, ind)
+				case 3:
+					fmt.Fprintf(&b, "%sprint errmsg[%s]\n", ind, idx) // out of bounds when the conversion succeeded: a panic in this event only
+				case 4:
+					fmt.Fprintf(&b, "%sprint errmsg[%s:]\n", ind, idx)
+				case 5:
+					fmt.Fprintf(&b, "%sif (len errmsg) > %s\n%s    print errmsg[%s] errmsg[%s:] errmsg[:%s]\n%send\n", ind, strings.TrimPrefix(idx, "-"), ind, idx, idx, idx, ind)
+				case 6:
+					fmt.Fprintf(&b, "%sfor range errmsg\n%s    cnt = cnt + 1\n%send\n%sprint \"cnt\" cnt (errmsg == \"\")\n", ind, ind, ind, ind)
+				default:
+					nid++
+					fmt.Fprintf(&b, "%sm%d := errmsg\n%sprint m%d (m%d == errmsg) errmsg\n", ind, nid, ind, nid, nid)
+				}
+			}
+		}
+		conv := func(ind, arg string) {
+			nid++
+			if rng.Intn(3) == 0 {
+				fmt.Fprintf(&b, "%sb%d := str2bool %s\n%sif b%d\n%s    total = total + 1\n%send\n", ind, nid, arg, ind, nid, ind, ind)
+			} else {
+				fmt.Fprintf(&b, "%sn%d := str2num %s\n%stotal = total + n%d\n", ind, nid, arg, ind, nid)
+			}
+		}
+		b.WriteString("total := 0\ncnt := 0\nseen := \"\"\n")
+		if rng.Intn(2) == 0 { // the top-level program already looks into the cell
+			conv("", strconv.Quote(pick()))
+			looks("")
+		}
+		type hd struct{ name, sig, arg, use string }
+		all := []hd{{"input", " id:string val:string", "val", "id val"}, {"key", " k:string", "k", "k"}, {"input", " _:string val:string", "val", "val"},
+			{"animate", "", "", ""}, {"down", " x:num _:num", "", "x"}, {"up", "", "", ""}}
+		var hs []hd
+		used := map[string]bool{}
+		for _, i := range rng.Perm(len(all))[:1+rng.Intn(3)] {
+			if !used[all[i].name] {
+				used[all[i].name] = true
+				hs = append(hs, all[i])
+			}
+		}
+		for _, h := range hs {
+			fmt.Fprintf(&b, "on %s%s\n    print \"%s\" %s total\n", h.name, h.sig, h.name, h.use)
+			if rng.Intn(4) == 0 { // looks at what the previous run / the main program left
+				looks("    ")
+			}
+			for j, m := 0, 1+rng.Intn(2); j < m; j++ {
+				arg := h.arg
+				if arg == "" || rng.Intn(5) == 0 {
+					arg = strconv.Quote(pick())
+				}
+				conv("    ", arg)
+				looks("    ")
+			}
+			b.WriteString("end\n")
+		}
+		b.WriteString("print total cnt seen err errmsg\n")
+		src := b.String()
+		var evs []SemEvent
+		for j, m := 0, 2+rng.Intn(6); j < m; j++ {
+			h := hs[rng.Intn(len(hs))]
+			var ps []any
+			switch h.name {
+			case "input":
+				ps = []any{[]string{"s1", "id2"}[rng.Intn(2)], pick()}
+			case "key":
+				ps = []any{pick()}
+			default:
+				ps = eventPayloads[h.name](rng)
+			}
+			evs = append(evs, SemEvent{Name: h.name, Params: ps})
+		}
+		d := semCase(model, r, src, SemOpts{StopAt: -1, Events: evs, YieldBudget: 50000}, true, "errglobals:")
+		if d.Impl.ParseErr != "" {
+			if r.Distribution["errglobals:parse-error"]++; r.Distribution["errglobals:parse-error"] <= 2 {
+				r.Note("errglobals program rejected by the parser (%s): %q", d.Impl.ParseErr, src)
+			}
+			continue
+		}
+		if len(d.Impl.Phases) == 0 || d.Impl.Budget {
+			continue
+		}
+		allOK := true
+		for _, p := range d.Impl.Phases {
+			if p.Class != "ok" {
+				allOK = false
+			}
+		}
+		if !allOK {
+			r.Dist("errglobals:some-event-panics")
+			continue
+		}
+		psrc, _ := c15AsProcedures(src, evs)
+		pr := ImplRun(psrc, SemOpts{StopAt: -1, YieldBudget: 50000})
+		if pr.ParseErr != "" || len(pr.Phases) == 0 {
+			r.Dist("errglobals:procedures-parse-error")
+			continue
+		}
+		r.Dist("errglobals:procedures-compared")
+		a, bb := flatTrace(d.Impl), flatTrace(pr)
+		if joinLines(a) != joinLines(bb) || pr.Phases[0].Class != "ok" {
+			r.Violate(Violation{Kind: "property", Key: "err-globals-in-handlers-differ-from-procedures",
+				Detail: "handlers that read the built-in globals err/errmsg in place (index, slice, range) after conversions do not behave like the equivalent procedures called in that order",
+				Input:  map[string]any{"program": src, "events": evs, "procedures": psrc}, Impl: map[string]any{"events": a, "procedures": bb}})
 		}
 	}
 }
